@@ -61,6 +61,24 @@ def run_generator(rec, seed):
     return res
 
 
+def parse_block(codes):
+    """lexical: the 'key: value' lines after the blank line -> [[key, [num, den]], ...]"""
+    from fractions import Fraction
+    text = bytes(codes).decode('latin-1')
+    head, sep, tail = text.partition('\n\n')
+    out = []
+    for line in tail.split('\n')[1:]:
+        if ':' not in line:
+            continue
+        k, _, v = line.partition(':')
+        try:
+            f = Fraction(v.strip())
+            out.append([k.strip(), [f.numerator, f.denominator]])
+        except (ValueError, ZeroDivisionError):
+            out.append([k.strip(), [-1, 1]])
+    return out
+
+
 def listing_numbers(names):
     out = []
     for n in names:
